@@ -1,4 +1,118 @@
-(* placeholder while the harness is being brought up *)
-From TL Require Import Lib.Base Model.CfgMerge Model.CfgCli Model.CfgToolRun Actual.CfgToolActual.
-Theorem C20_placeholder : True. Proof. exact I. Qed.
-Print Assumptions C20_placeholder.
+(* Props/C20.v — property C20 (config tooling never loses user settings and only writes validated values).
+   Only statements closed by `exact <lemma>` and their Print Assumptions.
+
+   Reading guide.  Files are lists of lines (text.split("\n")).  `analyse` recognises the line-structured YAML
+   subset (block documents: top-level `key:` lines with indented / dash-led bodies, comments, blank lines, an
+   optional `---`; one-line flow-style roots); `struct_r (analyse E) = true` says E is in it.  `eff nk es` is the
+   entry a loader finds for the normalised key nk (last one wins).  `spec_ok reps E R R2` is the conjunction of
+   the seven specification bits of Model/CfgMerge.v for "E before, R after, R2 after running it again".
+   `presets`, `linter_sections`, the template, markers, separators, defaults and validators are regenerated
+   from /repo on every run (Gen/CfgToolGen.v). *)
+From TL Require Import Lib.Base Lib.GenTypes Model.CfgTypes Gen.CfgToolGen Model.CfgMerge Model.CfgCli
+     Proofs.CfgLines Proofs.CfgMergeMain Proofs.CfgMergeText Proofs.CfgMergeSpec Proofs.CfgInitMain Proofs.CfgCliProofs.
+From Coq Require Import ZArith.
+
+(* 1. init-config without --force, every preset, every existing file of the subset, every quirk vector with the
+      three merge flags off: the result meets the whole specification, and a second run changes nothing. *)
+Theorem C20_init_config_spec : forall q preset reps E,
+  q_missing_by_raw_key q = false -> q_append_to_flow_root q = false -> q_insert_mid_entry q = false ->
+  lookup preset presets = Some reps -> struct_r (analyse E) = true ->
+  let R := result_file E (init_config q preset E) in
+  spec_ok reps E R (result_file R (init_config q preset R)) = true.
+Proof. intros q preset reps E H1 H2 H3 Hl Hs. exact (init_config_spec q preset reps E Hl Hs (or_introl H1) (or_introl H2) (or_introl H3)). Qed.
+Print Assumptions C20_init_config_spec.
+
+(* 1'. (partial) the same for ANY quirk vector - in particular the one claimed for the current tree - on files that
+      avoid the three defect classes: no key is a re-spelled linter section, the root is block style, and the
+      GLOBAL SETTINGS banner (if any) stands at an entry boundary. *)
+Theorem C20_init_config_partial : forall q preset reps E,
+  spelling_ok E = true -> is_block E = true -> marker_ok E = true ->
+  lookup preset presets = Some reps -> struct_r (analyse E) = true ->
+  let R := result_file E (init_config q preset E) in
+  spec_ok reps E R (result_file R (init_config q preset R)) = true.
+Proof. intros q preset reps E H1 H2 H3 Hl Hs. exact (init_config_spec q preset reps E Hl Hs (or_intror H1) (or_intror H2) (or_intror H3)). Qed.
+Print Assumptions C20_init_config_partial.
+
+(* 2. what the specification says, bit by bit: valid YAML whose entries are literally old or template entries;
+      old non-blank lines preserved in order; settings in effect; only missing sections added; all of them added
+      (block roots); added sections carry the template's content; the second run leaves the file as it is. *)
+Theorem C20_spec_meaning : forall reps E R R2, spec_ok reps E R R2 = true ->
+  valid_b reps E R = true /\ preserved_b E R = true /\ in_effect_b E R = true /\ only_missing_b E R = true /\
+  (is_block E = true -> complete_b R = true) /\ added_content_b reps E R = true /\ R2 = R.
+Proof. exact spec_ok_unfold. Qed.
+Print Assumptions C20_spec_meaning.
+
+Theorem C20_settings_stay_in_effect : forall E R a, in_effect_b E R = true -> analyse E = RBlock a ->
+  exists b, analyse R = RBlock b /\ forall e, In e a -> eff (norm (ekey e)) b = eff (norm (ekey e)) a.
+Proof. exact in_effect_sound. Qed.
+Print Assumptions C20_settings_stay_in_effect.
+
+Theorem C20_old_lines_preserved : forall E R, preserved_b E R = true -> subseq (nonblank E) (nonblank R).
+Proof. intros E R H. exact (subseqb_sound _ _ H). Qed.
+Print Assumptions C20_old_lines_preserved.
+
+(* 3. the file generated for each preset: a block document that has every linter section under its hyphenated
+      name, no two keys that normalise to the same name, no placeholder left, and on which init-config finds
+      nothing missing (computed on the template and preset table read from the source). *)
+Theorem C20_fresh_files : forallb (fun p => fresh_ok (snd p)) presets = true /\ map fst presets = ["strict"; "standard"; "lenient"].
+Proof. exact (conj fresh_files_ok preset_names). Qed.
+Print Assumptions C20_fresh_files.
+
+(* 4. config set: a rejected value leaves the file unchanged; get never writes; an accepted value is written into
+      a configuration that validates. *)
+Theorem C20_rejected_set_leaves_file : forall q ex f k t,
+  o_rc (step q ex f (CSet k t)) <> 0 -> o_file (step q ex f (CSet k t)) = f.
+Proof. exact rejected_set_leaves_file. Qed.
+Print Assumptions C20_rejected_set_leaves_file.
+
+Theorem C20_get_leaves_file : forall q ex f k, o_file (step q ex f (CGet k)) = f.
+Proof. exact get_leaves_file. Qed.
+Print Assumptions C20_get_leaves_file.
+
+Theorem C20_accepted_set_writes_valid : forall q ex f k t,
+  o_rc (step q ex f (CSet k t)) = 0 ->
+  exists c, o_file (step q ex f (CSet k t)) = Some c /\ valid c = true /\ lookup (ckey q k) c = Some (convert t).
+Proof. exact accepted_set_writes_valid. Qed.
+Print Assumptions C20_accepted_set_writes_valid.
+
+(* 5. ... and, with the key flag off (or for keys without a hyphen), the written file loads again, validates, and
+      `config get` prints the accepted value. *)
+Theorem C20_accepted_set_reloads : forall q ex f k t, q_cli_raw_key q = false \/ plain_key k = true ->
+  o_rc (step q ex f (CSet k t)) = 0 ->
+  exists c c', o_file (step q ex f (CSet k t)) = Some c /\ load ex (Some c) = Some c' /\ valid c' = true
+               /\ lookup (norm k) c' = Some (convert t).
+Proof. exact accepted_set_reloads. Qed.
+Print Assumptions C20_accepted_set_reloads.
+
+Theorem C20_set_then_get : forall q ex f k t, q_cli_raw_key q = false \/ plain_key k = true ->
+  o_rc (step q ex f (CSet k t)) = 0 ->
+  let f' := o_file (step q ex f (CSet k t)) in
+  step q ex f' (CGet k) = Build_obs 0 (Some (show (convert t))) f'.
+Proof. exact set_then_get. Qed.
+Print Assumptions C20_set_then_get.
+
+(* 6. histories: for every sequence of set / get / reset commands from every initial file (absent, valid, invalid;
+      --config given or not), every step of the model trace meets the trace specification: rejected sets and gets leave
+      the file alone, accepted sets leave a file that validates after loading and holds the value, and a get of a key
+      set earlier (no later set of it, no reset) prints that value. *)
+Theorem C20_history : forall q ex cs f, q_cli_raw_key q = false ->
+  forallb (fun b => b) (spec_trace [] f cs (run q ex f cs)) = true.
+Proof. intros q ex cs f H. exact (history_spec_fresh q ex cs f (cmd_cond_flag_off q cs H)). Qed.
+Print Assumptions C20_history.
+
+(* 6'. (partial) for any quirk vector, on histories whose keys contain no hyphen *)
+Theorem C20_history_partial : forall q ex cs f, forallb cmd_plain cs = true ->
+  forallb (fun b => b) (spec_trace [] f cs (run q ex f cs)) = true.
+Proof. intros q ex cs f H. exact (history_spec_fresh q ex cs f (cmd_cond_plain q cs H)). Qed.
+Print Assumptions C20_history_partial.
+
+(* non-vacuity: an admissible existing file with comments, both spellings, a flow value and a column-0 sequence, from
+   which nine sections are missing; the merge keeps `magic_numbers` in effect under the ideal vector *)
+Definition ex_E : list string :=
+  ["# team config"; "---"; "magic_numbers:"; "  allowed_numbers: [4242]  # ours"; ""; "nesting: {max_nesting_depth: 3}";
+   "exclude:"; "- build/"; "dry:"; "    min_duplicate_lines: 7"; ""].
+Example C20_nonvacuous :
+  struct_r (analyse ex_E) = true /\ is_block ex_E = true /\ marker_ok ex_E = true /\ spelling_ok ex_E = false /\
+  List.length (result_names (init_config ideal "strict" ex_E)) = 9 /\
+  root_keys (analyse ex_E) = ["magic_numbers"; "nesting"; "exclude"; "dry"].
+Proof. vm_compute. repeat split; reflexivity. Qed.
